@@ -269,7 +269,11 @@ def w_uf_real(cfg, tier):
 
 
 DECODER_CLASS = {'bposd': 'BeliefPropagationOSDDecoder', 'matching': 'MatchingDecoder',
-                 'unionfind': 'UnionFindDecoder', 'mbp': 'MemoryBeliefPropagationDecoder'}
+                 'unionfind': 'UnionFindDecoder', 'mbp': 'MemoryBeliefPropagationDecoder',
+                 'xcube': 'XCubeMatchingDecoder', 'sweepmatch': 'SweepMatchDecoder',
+                 'rotatedsweepmatch': 'RotatedSweepMatchDecoder'}
+# decoders for which the property only promises "a binary vector of length 2n without raising"
+INCOMPLETE = ('mbp', 'xcube', 'sweepmatch', 'rotatedsweepmatch')
 
 
 def w_real_dtype(cfg, tier):
@@ -294,7 +298,11 @@ def w_real_dtype(cfg, tier):
         l1 = eng.integer('l1', 1, 3)          # 1=X 2=Z 3=Y
         l2 = eng.integer('l2', 0, 3)          # 0 = no second error
         eng.assume_base((q1 <= q2).t)
-        if len(parts) > 4:
+        if len(parts) > 4 and parts[4].startswith('wmax='):
+            if int(parts[4].split('=')[1]) < 2:
+                eng.assume_base((l2 == 0).t)
+                eng.assume_base((q2 == q1).t)
+        elif len(parts) > 4:
             eng.assume_base((l1 == int(parts[4])).t)
 
         def fn():
@@ -308,7 +316,7 @@ def w_real_dtype(cfg, tier):
             keep = s.copy()
             c = np.asarray(Dec(code, em, 0.1).decode(s))
             ok = c.shape == (2 * n,) and bool(np.isin(c, (0, 1)).all()) and \
-                not code.measure_syndrome((e + c.astype(np.uint8)) % 2).any() and \
+                (parts[1] in INCOMPLETE or not code.measure_syndrome((e + c.astype(np.uint8)) % 2).any()) and \
                 s.dtype == keep.dtype and bool((s == keep).all())
             return e.tolist(), bool(ok)
         ps = eng.explore(fn)
@@ -518,7 +526,8 @@ def replay(path):
                 c = np.asarray(dec.decode(s))
                 print('error', e.tolist(), 'syndrome', s.tolist(), 'correction', c.tolist())
                 bad = c.shape != (2 * code.n,) or not np.isin(c, (0, 1)).all() or \
-                    bool(code.measure_syndrome((e + c.astype(np.uint8)) % 2).any()) or not (s == keep).all()
+                    (parts[1] not in INCOMPLETE and bool(code.measure_syndrome((e + c.astype(np.uint8)) % 2).any())) or \
+                    not (s == keep).all()
         elif w.get('reuse'):
             import panqec.decoders as pd_
             from panqec.error_models import PauliErrorModel
@@ -605,6 +614,18 @@ def configs(tier):
             'real-reuse unionfind Toric2DCode(3,3)']
     out += ['uf-real Toric2DCode(2,2)', 'uf-real Toric2DCode(2,3)', 'uf-real Toric2DCode(3,3)'] + \
         (['uf-real Toric2DCode(3,4)', 'uf-real Toric2DCode(4,4)'] if tier != 'quick' else [])
+    # every decoder, incl. the incomplete ones, on non-cubic lattices of the classes it declares: a binary vector of
+    # length 2n, no exception (syndromes of all errors of weight <= 2)
+    wm = 'wmax=1' if tier == 'quick' else 'wmax=2'
+    out += [f'real-dtype xcube XCubeCode(2,2,2) uint8 {wm}', f'real-dtype xcube XCubeCode(3,2,2) uint8 {wm}',
+            f'real-dtype xcube XCubeCode(2,3,2) uint8 {wm}', f'real-dtype xcube XCubeCode(2,2,3) uint8 {wm}',
+            f'real-dtype sweepmatch Toric3DCode(2,3,2) uint8 {wm}', f'real-dtype sweepmatch Planar3DCode(3,2,2) uint8 {wm}',
+            f'real-dtype rotatedsweepmatch RotatedPlanar3DCode(2,3,2) uint8 {wm}',
+            f'real-dtype rotatedsweepmatch RotatedPlanar3DCode(3,2,3) uint8 {wm}', f'real-dtype mbp Toric2DCode(2,3) uint8 {wm}']
+    if tier != 'quick':
+        out += ['real-dtype xcube XCubeCode(4,3,2) uint8 wmax=1', 'real-dtype sweepmatch Toric3DCode(2,3,4) uint8 wmax=1',
+                'real-dtype rotatedsweepmatch RotatedPlanar3DCode(4,3,2) uint8 wmax=1',
+                'real-dtype mbp RotatedPlanar2DCode(3,4)/XZZX/x uint8 wmax=1']
     # other accepted array representations of the syndrome, real engines
     for dt in ('bool', 'int64'):
         out += [f'real-dtype matching Toric2DCode(3,3) {dt}', f'real-dtype bposd Toric2DCode(2,3) {dt}',
